@@ -14,7 +14,7 @@ import time
 from concurrent.futures import ThreadPoolExecutor
 
 ROOT = os.path.dirname(os.path.dirname(os.path.abspath(__file__)))
-EXTRA_CHECKS = {}  # seeded changes that are (also) caught by another property's check
+EXTRA_CHECKS = {"C05_B": ["C05", "C20"]}  # needs a solver fault to manifest: decided by the retry property's check  # seeded changes that are (also) caught by another property's check
 
 
 def run_one(item):
